@@ -598,7 +598,7 @@ SUBCHECKS = [
     Sub("supercell_random", run=run_random, strategy=random_cell_specs, examples={"quick": 1500, "thorough": 40000},
         shards={"quick": 6, "thorough": 16}, builds=["omp"],
         what="random unit cells (labels, masses, moments, outside [0,1)), entries up to 4, det<=12"),
-    Sub("primitive", run=run_primitive, strategy=prim_specs, examples={"quick": 1500, "thorough": 40000},
+    Sub("primitive", run=run_primitive, strategy=prim_specs, examples={"quick": 4000, "thorough": 40000},
         shards={"quick": 8, "thorough": 16}, budget={"quick": 100, "thorough": 1500},
         what="primitive cell tiles the supercell; maps consistent; translation permutations form a simply transitive group; invalid requests rejected"),
     Sub("auto_axes", run=run_auto, strategy=auto_specs, examples={"quick": 600, "thorough": 12000}, shards={"quick": 6, "thorough": 16},
